@@ -283,6 +283,18 @@ def materialise(root, sysd, order, table_in_dir):
     if table_in_dir:
         with open(os.path.join(root, "clock-offsets.txt"), "w") as f:
             f.write(offsets_table(sysd))
+    if sysd.get("_symlink"):
+        # traces gathered from several nodes with `ln -s`: the loom (or thread) directory of the last stream
+        # lives outside the trace directory and is reached through a symbolic link of the same name
+        st = lay[max(order)]
+        ldir = os.path.join(root, "loom.%s" % loom_name(st["loom"], sysd))
+        target = ldir if sysd["_symlink"] == "loom" else os.path.join(ldir, "proc.%d" % st["pid"], "thread.%d" % st["tid"])
+        if os.path.isdir(target) and not os.path.islink(target):
+            ext = root.rstrip("/") + ".ext"
+            os.makedirs(ext, exist_ok=True)
+            dst = os.path.join(ext, os.path.basename(target) + ".%d" % len(os.listdir(ext)))
+            shutil.move(target, dst)
+            os.symlink(dst, target)
     return lay
 
 
@@ -610,6 +622,13 @@ def main(pid, tier):
             c2 = json.loads(json.dumps(c))
             c2["_samehost"] = True
             extra_cases.append(c2)
+    #  _symlink  : the loom / thread directory of one stream is a symbolic link to a directory elsewhere
+    nsl = 0
+    for i, c in enumerate(cases):
+        if i % 5 == 2 and len(c["loom"]) >= 2:
+            c["_symlink"] = "loom" if (i // 5) % 2 == 0 else "thread"
+            nsl += 1
+    ck.notes["systems"]["with_a_symlinked_directory"] = nsl
     cases += extra_cases
     ck.notes["systems"]["scaled_clocks"] = sum(1 for c in cases if c.get("_scale"))
     ck.notes["systems"]["looms_sharing_a_host"] = len(extra_cases)
